@@ -2101,7 +2101,16 @@ class Connection(utils.CompositeEventEmitter):
         """
         Helper method to call `utils.cancel_on_event` for the 'disconnection' event
         """
-        return utils.cancel_on_event(self, self.EVENT_DISCONNECTION, awaitable)
+        future = asyncio.ensure_future(awaitable)
+        if not future.done() and self.device.connections.get(self.handle) is not self:
+            # Already disconnected: the event will not come again
+            msg = 'abort: already disconnected.'
+            if isinstance(future, asyncio.Task):
+                future.cancel(msg)
+            else:
+                future.set_exception(asyncio.CancelledError(msg))
+            return future
+        return utils.cancel_on_event(self, self.EVENT_DISCONNECTION, future)
 
     async def __aenter__(self):
         return self
